@@ -140,7 +140,7 @@ _bls("C03", ["Props.C03"],
      "all-valid and single-defect batches are good for every vector; coefficients rand+1 < r are non-zero. batch_agrees_outside_few: for every list of n keys and signatures (any mix of invalidity) the exceptional set has "
      "at most (n+1)^2 * N^(n-1) of the N^n coefficient vectors (N = 2^128: a fraction <= (n+1)^2 / 2^128); outside it the result is index by index what Verify returns (a defective position pins its coefficient once the others are chosen; union over the segments).",
      "Lean kernel + correspondence; probability statement reduced to membership in an explicit bad set")
-_bls("C04", ["Props.C04", "Props.C04Model"],
+_bls("C04", ["Props.C04", "Props.C04Model", "Props.E2Model"],
      "random multisets of 1..16 scalars with duplicates, additive inverses, small values, forced zero sums; permutations; nested aggregation; removal; aggregated signatures vs signature of aggregated key; "
      "malformed entries (short, bad header, outside G1 - accepted by aggregation as documented: no subgroup check) ; empty lists and non-BLS keys",
      "Lean 4 proof (homomorphism laws over abstract groups) + differential run vs concrete Fr/E1/E2 arithmetic",
@@ -148,7 +148,8 @@ _bls("C04", ["Props.C04", "Props.C04Model"],
      "Executable model tied to the group of the curve (Props.C04Model, Proofs/CurveGroup + JacAlg + CurveInst, 900 lines): the curve arithmetic the driver runs against the implementation - affine chord-and-tangent addition, the Jacobian addition and doubling formulas, double-and-add, the list sum - "
      "IS the group law of y^2 = x^3 + 4 over ZMod p as Mathlib defines it (WeierstrassCurve.Affine.Point, p prime by the Pratt certificate): model_sum_is_group_sum, model_sum_order_independent, model_sum_nested, model_mul_is_nsmul (k < 2^800) and "
      "model_sign_aggregated_key (for a hash point the membership test accepts, ((k1+k2) mod r) * H = k1*H + k2*H as values of the model): the aggregation laws hold for every input of the model that is compared with the code, not only on the cases of a run.",
-     "Lean kernel + correspondence; E2 (over F_p^2) is not bridged to Mathlib's group law, only E1")
+     "Lean kernel + correspondence; E1 and E2 are bridged to Mathlib's group law (E2 over QuadraticAlgebra (ZMod p) (-1) 0 = F_p[u]/(u^2+1), a field since p = 3 mod 4: Proofs/CurveGroup2, CurveInst2; "
+     "Props.E2Model: aggregation of public keys in the model is the group sum, order independent, and publicKeyOf((k1+k2) mod r) = sum [publicKeyOf k1, publicKeyOf k2])")
 _bls("C16", ["Props.C16"],
      "keys as in C01 x PoP generation vs model, honest verification, other key, candidate catalogue, signatures of the public-key bytes under 9 tags (empty, prefix/suffix-overlapping with the PoP suite, 1 KiB) "
      "submitted as PoP, PoP submitted to Verify under each tag, identity keys, non-BLS keys",
@@ -164,7 +165,7 @@ _bls("C17", ["Props.C17"],
      "Lean kernel + correspondence")
 
 CONFIG["C12"] = dict(
-    lean_modules=["Props.C12", "Props.C12Model"],
+    lean_modules=["Props.C12", "Props.C12Model", "Props.E2Model"],
     generators=["C12"],
     level="proof",
     rule="BLS, P-256, secp256k1: every seed length 0..300 x contents {zeros, ones, random (thorough: 38 random)}, nil seed, single-bit variations; private and public key bytes compared with the model's own "
@@ -172,7 +173,7 @@ CONFIG["C12"] = dict(
     trusted_base=COMMON_TB + ["modelled, not verified: Go crypto/hkdf, crypto/sha256 (compared with Model.Sha2, itself KAT-checked), BLST/ecdh/btcec scalar multiplication"],
     technique="Lean 4 proof (mapToFr = OS2IP mod r for every length; key ranges; seed guards) + differential run vs own HKDF/curve arithmetic",
     level_text="Theorems for all seeds: map_bytes_to_Fr equals big-endian reduction mod r for every input length (induction over the digit loop); BLS key in [1,r-1], ECDSA key in [1,n-1]; "
-               "seed length guard; guards and constants tied to the code; Props.C12Model (via Proofs/CurveGroup): the ECDSA public key of the executable model is d * G in Mathlib's group of points of P-256 / secp256k1 over ZMod p (p256_public_key_is_scalar_mul, k256_public_key_is_scalar_mul), and scalars that differ by a multiple of an annihilator of G give the same key (k256_public_key_mod); generators_have_prime_order: the four generators the public keys are multiples of (G1, G2 of BLS12-381, the base points of P-256 and secp256k1) lie on their curves and are annihilated by the group order, which is prime (Pratt certificates), so sk -> sk*G is injective on the key range. That HKDF output equals RFC 5869 is by KAT + correspondence.",
+               "seed length guard; guards and constants tied to the code; Props.C12Model (via Proofs/CurveGroup): the ECDSA public key of the executable model is d * G in Mathlib's group of points of P-256 / secp256k1 over ZMod p (p256_public_key_is_scalar_mul, k256_public_key_is_scalar_mul), and scalars that differ by a multiple of an annihilator of G give the same key (k256_public_key_mod); Props.E2Model.bls_public_key_is_scalar_mul: the BLS public key of the model is sk * g2 in Mathlib's group of E2 over F_p^2 (Proofs/CurveGroup2); generators_have_prime_order: the four generators the public keys are multiples of (G1, G2 of BLS12-381, the base points of P-256 and secp256k1) lie on their curves and are annihilated by the group order, which is prime (Pratt certificates), so sk -> sk*G is injective on the key range. That HKDF output equals RFC 5869 is by KAT + correspondence.",
     level_note="Lean kernel + correspondence; the BLS retry loop is modelled with fuel 16 (never exercised: probability 2^-255 per iteration)",
     assumptions=["the retry loop of BLS KeyGen terminates within 16 iterations"],
 )
